@@ -40,8 +40,8 @@ From Onsager Require Import Base.OrdRing Base.Instances Model.Net Model.Intersti
 Import ListNotations.
 Local Open Scope Z_scope.
 Definition mk (a : nat * nat * Z * list Z) : edge Zring := let '(s, t, c, d) := a in mkEdge (K:=Zring) s t c d.
-Definition runcross (c : nat * nat * list (nat * nat * Z * list Z) * list (list Z) * list (list (list Z)) * list (list Z) * list (list Z)) : nat :=
-  let '(n, dim, es, gam, Rs, lo, hi) := c in cross_code (K:=Zring) n dim (map mk es) gam Rs lo hi.
+Definition runcross (c : nat * nat * list (nat * nat * Z * list Z) * list (list Z) * list (list (list Z) * list nat * list nat) * list (list Z) * list (list Z)) : nat :=
+  let '(n, dim, es, gam, ops, lo, hi) := c in cross_code (K:=Zring) n dim (map mk es) gam ops lo hi.
 """
 
 
@@ -52,7 +52,10 @@ def cross_term(d, th, M, Lsv_impl, tol):
     crys = d.crys; dim = crys.dim; N = d.N
     edges = exact_edges(d, th, M)
     if edges is None: return None
-    n = N * N * M ** dim
+    c = vm.torus_chain(d, *d.preene2betafree(1.0, **th), M=M, solute=True)
+    n = c.n
+    index = {st: x for x, st in enumerate(c.states)}
+    basis = crys.basis[d.chem]
     gam = exact.corrector(n, edges, 2 * dim)
     if gam is None: return None
     sc = exact.lcm_den([e[2] for e in edges])
@@ -69,7 +72,19 @@ def cross_term(d, th, M, Lsv_impl, tol):
     hi = [[exact.fceil(F(Ll[a, b] + width) * fac) for b in range(dim)] for a in range(dim)]
     enc = lambda e: "(%s, %s, %s, %s)" % (coq_nat(e[0]), coq_nat(e[1]), coq_Z(int(e[2] * sc)), coq_list([coq_Z(int(v * s)) for v in e[3]]))
     mat = lambda m: coq_list([coq_list([coq_Z(int(x)) for x in row]) for row in m])
-    Rs = coq_list([mat(g.rot.tolist()) for g in crys.G])
+    # every space-group operation as (rotation in lattice coordinates, permutation of the chain's states, its inverse)
+    opl = []
+    for g in crys.G:
+        imap = g.indexmap[d.chem]
+        cell = [np.round(g.rot @ basis[i] + g.trans - basis[imap[i]]).astype(int) for i in range(N)]
+        p = []
+        for (s_, v_, R) in c.states:
+            cs = cell[s_]; cv = g.rot @ np.array(R) + cell[v_]
+            p.append(index[(imap[s_], imap[v_], tuple(int(x) for x in (cv - cs) % M))])
+        q = [0] * n
+        for a, b in enumerate(p): q[b] = a
+        opl.append("(%s, %s, %s)" % (mat(g.rot.tolist()), coq_list([coq_nat(x) for x in p]), coq_list([coq_nat(x) for x in q])))
+    Rs = coq_list(opl)
     bits = max(int(abs(int(g * s))).bit_length() for gk in gam for g in gk)
     term = "(%s, %s, %s, %s, %s, %s, %s)" % (coq_nat(n), coq_nat(dim), coq_list([enc(e) for e in edges]),
                                           coq_list([coq_list([coq_Z(int(g * s)) for g in gk]) for gk in gam]), Rs, mat(lo), mat(hi))
@@ -205,6 +220,9 @@ def run(ck):
         ck.case(key=("cross", m["crystal"], m["thermo"]), nontrivial=True, kind="exact-cross:%s:code%d" % (m["crystal"], c),
                 sample={"tier": "exact-cross-tensor", "crystal": m["crystal"], "states": m["n"], "code": c, "axial_dim": m["axial_dim"]})
         if c == 4: raise RuntimeError("harness certificate rejected (cross tensor)")
+        if c == 6:
+            ck.violation("some operation of crys.G does not map the solute-vacancy chain built from the calculator's classes onto itself "
+                         "(premise of C03_cross_invariant fails)", m, key="c03-cross-not-invariant"); continue
         if c == 5:
             ck.violation("Lsv (torus GF injected) is not enclosed by the exact cross tensor of the solute-vacancy chain", m, key="c03-cross-enclosure")
             continue
@@ -212,8 +230,7 @@ def run(ck):
         if crit != (1 if m["axial_dim"] == 0 else 0):
             raise RuntimeError("harness: no_axialb (Coq, lattice coordinates) disagrees with axial_dim (numpy, Cartesian)")
         if crit == 1 and symm == 0:
-            ck.violation("exact solute-vacancy tensor not symmetric although no antisymmetric tensor is invariant under crys.G: "
-                         "the chain built from the calculator's classes is not invariant under the point group", m, key="c03-cross-not-invariant")
+            raise RuntimeError("model contradiction: C03_cross_symmetric_checker_sound excludes an asymmetric exact tensor here")
         if crit == 0 and symm == 0:
             ck.violation("Lsv is not symmetric in its Cartesian indices on a crystal whose point group leaves an antisymmetric tensor "
                          "invariant (exact cross tensor of the chain, enclosing the implementation's value, is asymmetric)", m, key=K_AXIAL)
